@@ -604,18 +604,6 @@ func c05Judge(c *c05Case, obs *c05Obs, attribute bool) ([]c05Finding, c05Info) {
 	var b3txt []string
 	b4causes := map[string]bool{}
 	var b4txt []string
-	alias := false
-	for i := range md.devs {
-		d := &md.devs[i]
-		if !d.trashed {
-			continue
-		}
-		for _, mi := range d.mounts {
-			if md.mounts[mi].visible && !trashedMount[mi] {
-				alias = true
-			}
-		}
-	}
 	for _, class := range md.classes {
 		want := md.desired[class]
 		if want > 0 {
@@ -659,8 +647,40 @@ func c05Judge(c *c05Case, obs *c05Obs, attribute bool) ([]c05Finding, c05Info) {
 					outKept = true
 				}
 			}
+			// R2's other necessary feature: some trashed replica of this class
+			// sits on a service that has a second mount in the class (which is
+			// why the distinct-servers pass skipped it)
+			if outKept {
+				outKept = false
+				for i := range md.mounts {
+					m := &md.mounts[i]
+					if !m.visible || !md.devs[m.dev].trashed || !m.serves(class) {
+						continue
+					}
+					for k := range md.mounts {
+						o := &md.mounts[k]
+						if k != i && o.visible && o.s == m.s && o.dev != m.dev && o.serves(class) {
+							outKept = true
+						}
+					}
+				}
+			}
+			// a device serving this class was trashed through one mount while
+			// another mount of it, which the balancer also looks at, was not
+			aliasHere := false
+			for i := range md.devs {
+				d := &md.devs[i]
+				if !d.trashed || !d.cls[class] {
+					continue
+				}
+				for _, mi := range d.mounts {
+					if md.mounts[mi].visible && !trashedMount[mi] {
+						aliasHere = true
+					}
+				}
+			}
 			if attribute {
-				b4causes[c05Cause(c, md, &in, "B4", class, pmOK, outKept, alias)] = true
+				b4causes[c05Cause(c, md, &in, "B4", class, pmOK, outKept, aliasHere)] = true
 			}
 			b4txt = append(b4txt, fmt.Sprintf("class %q: desired %d, physical replication before %d, after the trashes %d (counted per mount: before %d, after %d)", class, want, before, after, pmBefore, md.mountRepl(class, trashedMount)))
 		}
@@ -761,13 +781,14 @@ func c05StillFails(n *c05Case, clause, class string) bool {
 }
 
 // c05CollapseShared leaves exactly one mount (a writable one if there is one)
-// of every device that is mounted more than once.
-func c05CollapseShared(c *c05Case) *c05Case {
+// of every device that is mounted more than once and is selected by only
+// (nil = all such devices; keys are c05MD.key).
+func c05CollapseShared(c *c05Case, only map[string]bool) *c05Case {
 	md := c05BuildModel(c)
 	drop := map[string]bool{}
 	for i := range md.devs {
 		d := &md.devs[i]
-		if len(d.mounts) < 2 {
+		if len(d.mounts) < 2 || (only != nil && !only[d.key]) {
 			continue
 		}
 		keep := -1
@@ -826,13 +847,18 @@ func c05DropOutOfClass(c *c05Case, class string) *c05Case {
 //
 //	desired-class-on-no-mount
 //	    the failing class is offered by no mount the balancer looks at
+//	device-trashed-through-one-mount-kept-through-another
+//	    (B4) a device serving the class is trashed through one of its mounts
+//	    while another of its mounts carries no trash request, and the failure
+//	    disappears when the trashed devices are reduced to one mount
 //	shared-device-replica-counted-once-per-mount
-//	    a device mounted on >= 2 services holds a replica, the naive
-//	    one-unit-per-mount accounting is satisfied, and the failure disappears
-//	    when every shared device is reduced to one mount
+//	    a device seen through >= 2 mounts holds a replica that is kept, the
+//	    naive one-unit-per-mount accounting is satisfied, and the failure
+//	    disappears when every such device is reduced to one mount
 //	replica-outside-class-protected-instead-of-replica-in-class
-//	    a replica that is kept does not serve the class, and the failure
-//	    disappears when the replicas outside the class are taken away
+//	    a replica that is kept does not serve the class, a trashed replica of
+//	    the class sits on a service with a second mount in the class, and the
+//	    failure disappears when the replicas outside the class are taken away
 //
 // If neither feature alone is necessary but the failure disappears when both
 // are taken away, both labels are given (joined with "+", like the labels of
@@ -843,22 +869,40 @@ func c05Cause(c *c05Case, md *c05Model, in *c05Info, clause, class string, perMo
 	}
 	const r1 = "shared-device-replica-counted-once-per-mount"
 	const r2 = "replica-outside-class-protected-instead-of-replica-in-class"
-	shared := in.sharedHeld > 0 && perMountOK
+	// shared devices whose replica stays (the ones that can be counted twice
+	// as protection) / devices that are trashed
+	keptShared, trashedDevs := map[string]bool{}, map[string]bool{}
+	for i := range md.devs {
+		d := &md.devs[i]
+		vis := 0
+		for _, mi := range d.mounts {
+			if md.mounts[mi].visible {
+				vis++
+			}
+		}
+		if d.has && !d.trashed && vis >= 2 {
+			keptShared[d.key] = true
+		}
+		if d.trashed {
+			trashedDevs[d.key] = true
+		}
+	}
+	shared := len(keptShared) > 0 && perMountOK
 	if outKept && !c05StillFails(c05DropOutOfClass(c, class), clause, class) {
 		return r2
 	}
-	if shared && !c05StillFails(c05CollapseShared(c), clause, class) {
+	if shared && !c05StillFails(c05CollapseShared(c, keptShared), clause, class) {
 		return r1
 	}
-	if shared && outKept && !c05StillFails(c05DropOutOfClass(c05CollapseShared(c), class), clause, class) {
+	if alias && !c05StillFails(c05CollapseShared(c, trashedDevs), clause, class) {
+		return "device-trashed-through-one-mount-kept-through-another"
+	}
+	if shared && outKept && !c05StillFails(c05DropOutOfClass(c05CollapseShared(c, keptShared), class), clause, class) {
 		// neither feature alone is necessary, together they are: both causes are at work
 		return r2 + "+" + r1
 	}
-	if in.sharedHeld > 0 && !c05StillFails(c05CollapseShared(c), clause, class) {
+	if in.sharedHeld > 0 && !c05StillFails(c05CollapseShared(c, nil), clause, class) {
 		return "shared-device-seen-through-several-mounts"
-	}
-	if alias {
-		return "device-trashed-through-one-mount-kept-through-another"
 	}
 	if clause == "B3" {
 		return "class-short-of-desired"
@@ -1440,6 +1484,59 @@ func c05Sample(rng *verifkit.Rand) *c05Case {
 	return c
 }
 
+// c05SampleShared draws a one-class layout built around devices that are
+// mounted on several services: 3-8 services x 1-2 mounts, every mount in the
+// implicit default class, 1-2 shared devices, many empty writable slots, one
+// collection. (Without storage classes the only thing that can go wrong with
+// the replica count is how shared devices are counted.)
+func c05SampleShared(rng *verifkit.Rand) *c05Case {
+	c := &c05Case{Kind: "sampled-shared", Blk: rng.Hex(32)}
+	ns := rng.Range(3, 8)
+	nShared := rng.Range(1, 2)
+	hasNum := rng.PickInt(2, 3, 4)
+	flat := 0
+	for s := 0; s < ns; s++ {
+		sv := c05Svc{ID: s, RO: rng.Chance(1, 12)}
+		nm := 1
+		if rng.Chance(1, 4) {
+			nm = 2
+		}
+		for m := 0; m < nm; m++ {
+			mm := c05Mount{UUID: fmt.Sprintf("zzzzz-nyw5e-%013d%02d", s, m), Repl: 1}
+			if rng.Chance(2, 5) {
+				mm.Dev = fmt.Sprintf("D%d", rng.Intn(nShared))
+			}
+			mm.RO = rng.Chance(1, 10)
+			if rng.Chance(1, 5) {
+				mm.Repl = rng.Range(2, 3)
+			}
+			mm.Has = rng.Chance(hasNum, 8) || (mm.Dev != "" && rng.Chance(1, 2))
+			if mm.Has {
+				k := 0
+				switch r := rng.Intn(10); {
+				case r < 7:
+				case r < 8:
+					k = 1
+				case r < 9:
+					k = 3
+				default:
+					k = 4
+				}
+				mm.Off = c05MtimeOff(k, flat)
+			}
+			sv.Mounts = append(sv.Mounts, mm)
+			flat++
+		}
+		c.Svcs = append(c.Svcs, sv)
+	}
+	c.Colls = []c05Coll{{Repl: rng.Range(1, 3)}}
+	if rng.Chance(1, 4) {
+		c.Colls[0].Cls = []string{"default"}
+	}
+	c.normalize()
+	return c
+}
+
 // ------------------------------------------------------------ entry point
 
 func c05Bucket(n int, edges ...int) string {
@@ -1460,6 +1557,18 @@ func TestVerifC05(t *testing.T) {
 
 	shrunk := map[string]int{}
 	seen := map[string]int{}
+	var sawTrash, sawPull, sawLost, sawShared, sawROReplica, sawUnderrep int
+	defer func() {
+		if run.Replaying() {
+			return
+		}
+		for name, n := range map[string]int{"trash request": sawTrash, "pull request": sawPull, "block reported lost": sawLost,
+			"shared device holding a replica": sawShared, "read-only view of a replica": sawROReplica, "under-replicated block": sawUnderrep} {
+			if n == 0 {
+				run.Inconclusive("batch " + fmt.Sprint(run.BatchK()) + " never observed a " + name)
+			}
+		}
+	}()
 	check := func(i int, c *c05Case) {
 		run.Input(c, false)
 		obs := c05Run(c)
@@ -1474,17 +1583,25 @@ func TestVerifC05(t *testing.T) {
 		run.Count("pull_requests", len(obs.Pulls))
 		if len(obs.Trashes) > 0 {
 			run.Count("cases_with_trash", 1)
+			sawTrash++
 		}
 		if len(obs.Pulls) > 0 {
 			run.Count("cases_with_pull", 1)
+			sawPull++
 		}
 		if obs.Lost {
 			run.Count("cases_reported_lost", 1)
+			sawLost++
 		}
 		if in.underrep {
 			run.Count("cases_underreplicated_in_model", 1)
+			sawUnderrep++
+		}
+		if in.roWithReplica > 0 {
+			sawROReplica++
 		}
 		if in.sharedHeld > 0 {
+			sawShared++
 			run.Count("cases_shared_device_holding_replica", 1)
 			if len(obs.Trashes) > 0 {
 				run.Count("cases_shared_device_holding_replica_and_trash", 1)
@@ -1588,10 +1705,18 @@ func TestVerifC05(t *testing.T) {
 	})
 
 	// ---- larger layouts (up to 16 services x 3 mounts), sampled
-	run.Cases("sampled", run.N(60000, 1500000), func(i int, rng *verifkit.Rand) {
+	run.Cases("sampled", run.N(40000, 1000000), func(i int, rng *verifkit.Rand) {
 		c := c05Sample(rng)
 		c.Shuf = rng.Uint64()
 		run.Count("layouts_sampled", 1)
+		check(i, c)
+	})
+
+	// ---- one-class layouts around shared devices, sampled
+	run.Cases("sampled-shared", run.N(20000, 500000), func(i int, rng *verifkit.Rand) {
+		c := c05SampleShared(rng)
+		c.Shuf = rng.Uint64()
+		run.Count("layouts_sampled_shared_devices", 1)
 		check(i, c)
 	})
 }
